@@ -219,7 +219,7 @@ Fixpoint join_with (sep : bytes) (l : list bytes) : bytes :=
 Definition fmt_variants (o : option (list bytes)) : bytes :=
   match o with None => bs "none" | Some l => bs "[" ++ join_with comma l ++ bs "]" end.
 Definition fmt_langid (x : langid) : bytes :=
-  language_text (li_lang x) ++ sp ++ fmt_opt (li_script x) ++ sp ++ fmt_opt (li_region x) ++ sp
+  language_text (li_lang x) ++ (match li_lang x with None => bs "!" | Some _ => [] end) ++ sp ++ fmt_opt (li_script x) ++ sp ++ fmt_opt (li_region x) ++ sp
   ++ fmt_variants (li_variants x) ++ sp ++ li_to_string x.
 Definition fmt_cmp (c : comparison) : bytes := match c with Lt => bs "Less" | Eq => bs "Equal" | Gt => bs "Greater" end.
 Definition flag (a : bytes) : bool := beqb a (bs "1").
@@ -309,6 +309,15 @@ Definition oracle_spec_langid (op : bytes) (args : list bytes) (impl : bytes) : 
           | None => beqb impl (fmt_err (spec_langid_err (split a))) end)
   else if beqb op (bs "li_into_parts") then
     Some (match spec_langid (split a) with Some _ => beqb impl (bs "OK same") | None => true end)
+  else if beqb op (bs "li_from_parts") then
+    (* from_parts (any order, duplicates) = parsing the joined string *)
+    Some (match parts_of_args args with
+          | Some (l, s0, r, vs) =>
+            match spec_langid (language_text l :: opt_tok s0 ++ opt_tok r ++ vs) with
+            | Some v => beqb impl (fmt_langid v ++ sp ++ bs "eqparse")
+            | None => true
+            end
+          | None => true end)
   else if beqb op (bs "li_matches") then
     Some (match spec_langid (split (arg_n 0 args)), spec_langid (split (arg_n 1 args)) with
           | Some x, Some y => beqb impl (fmt_bool (spec_li_matches x y (flag (arg_n 2 args)) (flag (arg_n 3 args))))
